@@ -540,6 +540,9 @@ func doCheck(repo, verif, prop string, pc propConf, tier string, seed uint64, wo
 			args := []string{"-mode", "run", "-property", prop, "-tier", tier, "-seed", strconv.FormatUint(seed, 10),
 				"-from", strconv.Itoa(k), "-stride", strconv.Itoa(workers), "-count", strconv.Itoa(per),
 				"-time-limit", strconv.FormatFloat(secs, 'f', 0, 64)}
+			if pc.Fresh > 0 {
+				args = append(args, "-fresh", strconv.Itoa(pc.Fresh))
+			}
 			s, err := runWorker(bin, args, 1, filepath.Join(wdir, fmt.Sprintf("w%d.json", k)), time.Duration(secs*3+120)*time.Second)
 			mu.Lock()
 			defer mu.Unlock()
@@ -565,6 +568,9 @@ func doCheck(repo, verif, prop string, pc propConf, tier string, seed uint64, wo
 			defer wg.Done()
 			args := []string{"-mode", "run", "-property", prop, "-tier", tier, "-seed", strconv.FormatUint(seed, 10),
 				"-from", "0", "-stride", "7", "-count", strconv.Itoa(detN), "-det"}
+			if pc.Fresh > 0 {
+				args = append(args, "-fresh", "2")
+			}
 			s, err := runWorker(bin, args, []int{4, 1}[d], filepath.Join(wdir, fmt.Sprintf("det%d.json", d)), time.Duration(secs*3+120)*time.Second)
 			mu.Lock()
 			defer mu.Unlock()
@@ -805,7 +811,7 @@ func doCheck(repo, verif, prop string, pc propConf, tier string, seed uint64, wo
 		"tree":                                       treeID(repo),
 	}
 	if len(tot.SiteHits) > 0 {
-		var unreached []string
+		unreached := []string{}
 		reached := 0
 		for k, n := range tot.SiteHits {
 			if prop == "C08" && !strings.HasPrefix(k, "protocol.") {
